@@ -121,6 +121,10 @@ def run(ctx):
         if rec["kind"] != "lang":
             ctx.violation(clause, {"kind": rec["kind"], "lines": rec["text"], "claimed": rec.get("claimed"), "got": rec.get("got")}, key=clause)
     ctx.exhaustive = True
+    # block boundaries: the section laid out so that boundaries of every power-of-two block size (and of multiples of 1000)
+    # fall right behind, just after and inside its lines; > 2^20 characters; through from_file and from_filepath
+    from chartgen import judge_block_alignment
+    judge_block_alignment(ctx, "C09", ['events'], straddle_events=True)
     ctx.assumptions += [
         "canonical quoted event: <blanks><ASCII digits> = E \"<text>\" with the closing quote last on the line",
         "a quoted text containing inner quotes that does not start with 'lyric ' / 'section ' is not constrained by the property",
